@@ -1,8 +1,9 @@
 #!/bin/bash
 # Re-confirms every packaged seed against the current /repo HEAD in scratch worktrees (apply, build, full suite,
-# demonstration with / without the change). Output: one line per seed.
+# demonstration with / without the change), four at a time. Output: one line per seed.
 cd /verif
-for d in seeded/*/; do
+one() {
+  d=$1
   id=$(basename $d)
   pkg=$(python3 -c "import json;print(json.load(open('$d/meta.json'))['demo']['place_in'])")
   run=$(python3 -c "
@@ -15,5 +16,7 @@ r=json.load(open('$d/meta.json'))['demo']['run']
 import re
 m=re.search(r'-count=1\s+(.*?)-run', r)
 print((m.group(1) if m else '').strip())")
-  /verif/tools/verify_seed.sh $id /verif/$d/patch.diff /verif/$d/demo_test.go $pkg "$run" "$extra"
-done
+  /verif/tools/verify_seed.sh $id /verif/$d/patch.diff /verif/$d/demo_test.go $pkg "$run" "$extra" 2>&1 | tail -1
+}
+export -f one
+ls -d seeded/*/ | sed 's#/$##' | xargs -P ${PAR:-4} -I{} bash -c 'one {}'
